@@ -231,9 +231,20 @@ def run_one(ch, cfg):
     v1 = ch.draw(6, "mode.v1") == 1
     dcfg = {"post_exit_signer": {"mode": 0x04, "delay": 0.2, "silence": "read_err"},
             "post_exit_uihb": {"mode": 0x03, "delay": 0.2, "silence": "read_err"}}
-    w = ServerWorld(ch, device_cfg=dcfg, v1=v1, step_cap=cfg.get("step_cap", 40000))
+    tcp = ch.draw(6, "platform.tcp") == 1
+    if tcp:
+        # the TCPSigner manager: real ManagerRunner + HSM2DongleTCP over the simulated TCP link
+        from sim.procworld import ProcWorld
+        # (the TCPSigner has no UI: whatever is asked of it, it comes back as the signer)
+        w = ProcWorld(ch, platform="tcp", device_cfg=dict(
+            dcfg, mode=0x03, post_exit_signer={"mode": 0x03, "delay": 0.2, "silence": "read_err"}),
+            step_cap=cfg.get("step_cap", 40000))
+        w.manager_task = w.start_manager(v1=v1)
+        w.critical_log, w.handler_exceptions = [], []
+    else:
+        w = ServerWorld(ch, device_cfg=dcfg, v1=v1, step_cap=cfg.get("step_cap", 40000))
+        w.start_manager()
     k = w.kernel
-    w.start_manager()
     nlines = 1 + ch.draw(cfg["max_lines"], "history.len")
     history = []
     viol = []
@@ -255,7 +266,8 @@ def run_one(ch, cfg):
                 if cut > prev:
                     c.send(payload[prev:cut])
                     if ch.draw(2, "frag.pause"):
-                        k.sleep(ch.pick([0.01, 0.6, 2.0], "frag.delay"))
+                        # (a slow sender: seconds, or longer than any sensible socket time-out)
+                        k.sleep(ch.pick([0.01, 0.6, 2.0, 12.0, 75.0], "frag.delay"))
                     prev = cut
         elif behaviour == "half-close":
             c.send(line)             # no newline, then FIN
@@ -306,7 +318,7 @@ def run_one(ch, cfg):
             c, how = send_line(line, behaviour if behaviour != "pair" else "plain")
             if c is None:
                 viol.append(("liveness/refused", "connection %d refused: the manager stopped "
-                             "listening (%s)" % (i, w.manager_outcome)))
+                             "listening (%s)" % (i, _outcome(w))))
                 return
             for conn in ([c] if how == "sent" else []) + ([other] if other is not None else []):
                 data = conn.drain()
@@ -341,7 +353,7 @@ def run_one(ch, cfg):
                      "scheduler ended with %s before the history completed (%d/%d lines)"
                      % (outcome, len(history), nlines)))
     if not viol and (w.manager_task.done or not w.serving()):
-        viol.append(("liveness/manager-stopped:" + _cause(w), "manager outcome %s" % w.manager_outcome))
+        viol.append(("liveness/manager-stopped:" + _cause(w), "manager outcome %s" % _outcome(w)))
     if not viol and w.handler_exceptions:
         viol.append(("liveness/handler-exception", str(w.handler_exceptions[0])))
     leaked = w.finish()
@@ -353,6 +365,10 @@ def run_one(ch, cfg):
             "sim_s": w.clock.elapsed, "sched": "/".join(k.sched_trace)[-400:] if k.sched_trace else "",
             "sample": {"mode": "v1" if v1 else "v5", "history": history[:6],
                        "scheduler_steps": k.steps, "outcome": outcome, "leaked_threads": leaked}}
+
+
+def _outcome(w):
+    return w.manager_outcome if hasattr(w, "manager_outcome") else w.outcomes.get("mgr0")
 
 
 def _cause(w):
